@@ -63,6 +63,8 @@ class Contract:
         self.note = kw.get("note", "")
         self.env = dict(kw.get("env", {}))
         self.nla = kw.get("nla", "native")                # "uf": products/quotients of two symbolic reals are uninterpreted (sound abstraction)
+        self.reveal = list(kw.get("reveal", []))
+        self.defines = kw.get("defines")                  # name of the spec function this pure function is the definition of
         self.axioms = list(kw.get("axioms", []))          # opt-in axiom groups, e.g. "rpow-arith"
         self.N_light = kw.get("N_light", False)          # units for N other than the first only keep node-constructor obligations
         self.rng = kw.get("rng", True)                   # False: any numpy random call inside is an obligation failure              # extra class variables, e.g. {"$P": "BinaryPartition"}
@@ -114,6 +116,13 @@ class Registry:
         proved (obligation kind `cut`) and then kept as a lemma for the rest of the path"""
         self.cuts = getattr(self, "cuts", {})
         self.cuts.setdefault((qname, after), []).extend(_clauses(clauses, set(props.split())))
+
+    def opaque(self, name, params, text, ret="real"):
+        """spec function kept uninterpreted; its definition (the text) is revealed only in units whose contract lists it
+        under `reveal` -- everywhere else only congruence is used, which keeps the VCs small"""
+        self.opaques = getattr(self, "opaques", {})
+        ps = [tuple(x.strip() for x in p.split(":")) for p in params.split(",")]
+        self.opaques[name] = (ps, text, ret)
 
     def pred(self, name, params, text, cls=None):
         self.preds.setdefault(name, []).append(Pred(name, params, text, cls))
